@@ -4,7 +4,7 @@
 Require Extraction.
 Require ExtrOcamlBasic.
 From Coq Require Import ZArith String List.
-From LW Require Import Gen.Consts Base.Bytes Base.Sweep Model.Epoch Model.TagName Spec.Numbers Model.TagIter Spec.TagSpec Model.Tags Model.CRC Spec.CRCSpec Model.SecStr Spec.SecStrSpec Gen.Tables Model.Radiotap Model.Frame Spec.FrameSpec Model.Macro Spec.CapSpec Model.RadiotapGen Spec.RadiotapSpec Spec.RadiotapGenSpec Model.Eapol Spec.EapolSpec Model.Gen Spec.GenSpec Model.Security Model.Mgmt Spec.SecuritySpec Spec.MgmtSpec Model.Alloc Model.AllocScen.
+From LW Require Import Gen.Consts Base.Bytes Base.Sweep Model.Epoch Model.TagName Spec.Numbers Model.TagIter Spec.TagSpec Model.Tags Model.CRC Spec.CRCSpec Model.SecStr Spec.SecStrSpec Gen.Tables Model.Radiotap Model.Frame Spec.FrameSpec Model.Macro Spec.CapSpec Model.RadiotapGen Spec.RadiotapSpec Spec.RadiotapChainSpec Spec.RadiotapGenSpec Model.Eapol Spec.EapolSpec Model.Gen Spec.GenSpec Model.Security Model.Mgmt Spec.SecuritySpec Spec.MgmtSpec Model.Alloc Model.AllocScen.
 Extraction Language OCaml.
 Set Extraction KeepSingleton.
 Extraction "model.ml"
@@ -21,7 +21,7 @@ Extraction "model.ml"
   parse_radiotap_info parse_radiotap_rssi rt_init rt_next
   get_wifi_frame parse_data spec_classify spec_data
   check_cap_eval lookup_enum shapes ieee_cap_bits
-  create_radiotap s_render s_restrict carriedb s_info s_wf1b
+  create_radiotap s_render s_restrict carriedb s_info s_wf1b s_info_chain s_wf_chainb
   check_wpa_handshake check_wpa_message get_wpa_key_data_length get_wpa_data s_is_handshake s_message s_wpa_data be16
   create_beacon create_probe_resp create_probe_req create_assoc_req create_reassoc_req create_assoc_resp create_reassoc_resp
   create_auth create_deauth create_disassoc create_timing_advert create_action add_action_detail a_length a_dump
